@@ -2,6 +2,7 @@ package eng
 
 import (
 	"fmt"
+	"math/big"
 	"time"
 
 	sdk "github.com/cosmos/cosmos-sdk/types"
@@ -9,6 +10,7 @@ import (
 
 	basetypes "github.com/regen-network/regen-ledger/x/ecocredit/v3/base/types/v1"
 	baskettypes "github.com/regen-network/regen-ledger/x/ecocredit/v3/basket/types/v1"
+	markettypes "github.com/regen-network/regen-ledger/x/ecocredit/v3/marketplace/types/v1"
 )
 
 // Profile extras used by generators.
@@ -58,6 +60,8 @@ func (w *World) Step(kind string) {
 		w.Faucet(a, sdk.NewCoins(sdk.NewInt64Coin(d, int64(1+w.intn("faucetamt", 1_000_000_000)))))
 	case "bulkBasket":
 		w.bulkBasket()
+	case "bulkOrders":
+		w.bulkOrders()
 	default:
 		if h, ok := w.Profile.Custom[kind]; ok {
 			h(w)
@@ -239,6 +243,10 @@ func (w *World) bulkBasket() {
 	w.Flags["bulk-basket"] = true
 	holder := w.anyAcct("bulk.holder")
 	n := 21 + w.intn("bulk.n", 8)
+	if w.chance("bulk.huge", 12) { // beyond the default page size of list helpers (100)
+		n = 101 + w.intn("bulk.n2", 6)
+		w.Flags["bulk-basket>100"] = true
+	}
 	type item struct {
 		denom string
 		amt   string
@@ -271,5 +279,40 @@ func (w *World) bulkBasket() {
 		it := items[i]
 		items = append(items[:i], items[i+1:]...)
 		w.Deliver("put", &baskettypes.MsgPut{Owner: holder.String(), BasketDenom: resp.BasketDenom, Credits: []*baskettypes.BasketCredit{{BatchDenom: it.denom, Amount: it.amt}}})
+	}
+}
+
+// bulkOrders is a macro step: one seller opens 101-125 small sell orders on one batch (three
+// per message), with a few shared expirations. It reaches list sizes beyond the default page
+// limit (100) and blocks in which many orders expire at once.
+func (w *World) bulkOrders() {
+	bs := w.balances(true)
+	if len(bs) == 0 || len(w.S.AllowedDenoms) == 0 {
+		w.Step("createBatch")
+		return
+	}
+	b := pickOf(w, "bo.hold", bs)
+	if b.Tradable.Cmp(big.NewRat(1, 1000)) < 0 {
+		w.Step("createBatch")
+		return
+	}
+	w.Flags["bulk-orders"] = true
+	n := 101 + w.intn("bo.n", 25)
+	bt := w.C.Time
+	exps := []*time.Time{nil, nil}
+	for i := 0; i < 3; i++ {
+		e := bt.Add(time.Duration(1+w.intn(fmt.Sprintf("bo.e%d", i), 120)) * time.Second)
+		exps = append(exps, &e)
+	}
+	denom := w.allowedDenom("bo.denom")
+	for made := 0; made < n; {
+		var orders []*markettypes.MsgSell_Order
+		for j := 0; j < 3 && made < n; j++ {
+			ask := sdk.NewCoin(denom, sdk.NewInt(int64(1+w.intn("bo.ask", 50))))
+			orders = append(orders, &markettypes.MsgSell_Order{BatchDenom: b.Batch.Denom, Quantity: "0.000001", AskPrice: &ask,
+				DisableAutoRetire: made%2 == 0, Expiration: exps[w.intn("bo.exp", len(exps))]})
+			made++
+		}
+		w.Deliver("sell", &markettypes.MsgSell{Seller: b.Addr.String(), Orders: orders})
 	}
 }
